@@ -207,6 +207,10 @@ func scenarios(prop, tier string) []runner.Sc {
 		mk("close-after-reconnect", ctl.Cfg{Tree: sm, WatchFaults: map[int]fakeapi.WatchFault{1: W("close", 0)}, Close: ctl.CloseSpec{Kind: "close", AfterMut: -1, At: 2500 * time.Millisecond}, ReadAt: 2800 * time.Millisecond, APICalls: true}, expect{closed: "*", rootDown: true})
 		mk("close-after-reconnect-while-connecting", ctl.Cfg{Tree: sm, WatchFaults: map[int]fakeapi.WatchFault{1: W("close", 0), 2: W("block", 0)}, Close: ctl.CloseSpec{Kind: "close", AfterMut: -1, At: 2500 * time.Millisecond}, ReadAt: 2800 * time.Millisecond, APICalls: true}, expect{closed: "*", rootDown: true})
 		mk("close-while-retry-pending", ctl.Cfg{Tree: sm, DefaultWatch: W("error", 0), Close: ctl.CloseSpec{Kind: "close", AfterMut: -1, At: 1500 * time.Millisecond}, APICalls: true}, expect{closed: "*", rootDown: true})
+		// shutdown while the controller is busy in a slow user filter (watch frames keep arriving meanwhile)
+		for _, kind := range []string{"close", "ctx"} {
+			mk(kind+"-while-controller-busy-in-a-slow-filter", ctl.Cfg{Tree: sm, SlowOn: "a", Close: ctl.CloseSpec{Kind: kind, AfterMut: -1, At: 500 * time.Millisecond}, ReadAt: 6 * time.Second, APICalls: true}, expect{closed: "*", rootDown: true})
+		}
 		// a relist slower than the refresh period (the tick fires while it is in flight), then Close once its result is in
 		mk("close-after-list-slower-than-period", ctl.Cfg{Tree: sm, ListFaults: map[int]fakeapi.ListFault{2: {Latency: 4 * time.Second}}, Close: ctl.CloseSpec{Kind: "close", AfterMut: -1, At: 8 * time.Second}, ReadAt: 10 * time.Second, APICalls: true}, expect{closed: "*", rootDown: true})
 		mk("ctx-during-list-slower-than-period", ctl.Cfg{Tree: sm, ListFaults: map[int]fakeapi.ListFault{2: {Latency: 4 * time.Second}}, Close: ctl.CloseSpec{Kind: "ctx", AfterMut: -1, At: 6500 * time.Millisecond}, ReadAt: 10 * time.Second, APICalls: true}, expect{closed: "*", rootDown: true})
